@@ -19,10 +19,23 @@ open CssVerif.Proto
 /-- `c` lies in one of the ranges (same function as `Tok.inR`) -/
 def inRanges (cs : List (Nat × Nat)) (c : Nat) : Bool := cs.any fun q => q.1 ≤ c && c ≤ q.2
 
-/-- first code point of a plain identifier: a letter other than `u` / `U` (which may start `url(` / `U+…`), or `_` -/
-def identStartR : List (Nat × Nat) := [(65, 84), (86, 90), (95, 95), (97, 116), (118, 122)]
-/-- further code points of a plain identifier: letters, digits, `-`, `_` -/
-def identRestR : List (Nat × Nat) := [(45, 45), (48, 57), (65, 90), (95, 95), (97, 122)]
+/-- first code point of a plain identifier: a letter other than `u` / `U` (which may start `url(` / `U+…`), `_`, or a
+non-ASCII code point -/
+def identStartR : List (Nat × Nat) := [(65, 84), (86, 90), (95, 95), (97, 116), (118, 122), (128, 1114111)]
+/-- … after a leading `-` any letter may start the name -/
+def nameStartR : List (Nat × Nat) := [(65, 90), (95, 95), (97, 122), (128, 1114111)]
+/-- further code points of a plain identifier: letters, digits, `-`, `_`, non-ASCII -/
+def identRestR : List (Nat × Nat) := [(45, 45), (48, 57), (65, 90), (95, 95), (97, 122), (128, 1114111)]
+def hexR : List (Nat × Nat) := [(48, 57), (65, 70), (97, 102)]
+/-- a code point that a backslash escapes *as itself* (a "simple escape": the value keeps backslash and code
+point): anything but a hex digit and LF / CR / FF -/
+def escOk (d : Nat) : Bool := !(inRanges hexR d) && d != 10 && d != 13 && d != 12
+
+/-- the rest of a name: name code points and simple escapes -/
+def nameBody : Cps → Bool
+  | [] => true
+  | [c] => inRanges identRestR c
+  | c :: d :: u => if c == 92 then escOk d && nameBody u else inRanges identRestR c && nameBody (d :: u)
 /-- what may follow a name: ASCII code points that are no name code points, no backslash and no `(` -/
 def nameStopR : List (Nat × Nat) := [(0, 39), (41, 44), (46, 47), (58, 64), (91, 91), (93, 94), (96, 96), (123, 127)]
 /-- white space of the `S` production -/
@@ -32,9 +45,12 @@ def digitR : List (Nat × Nat) := [(48, 57)]
 def numStopR : List (Nat × Nat) :=
   [(0, 36), (38, 39), (41, 44), (47, 47), (58, 64), (91, 91), (93, 94), (96, 96), (123, 127)]
 
+/-- a name whose value is its spelling: start code point (optionally after one `-`), then name code points and
+simple escapes (no hex escapes: their value differs from the spelling) -/
 def plainName : Cps → Bool
-  | c :: cs => inRanges identStartR c && cs.all (inRanges identRestR)
   | [] => false
+  | [c] => inRanges identStartR c
+  | c :: d :: u => if c == 45 then inRanges nameStartR d && nameBody u else inRanges identStartR c && nameBody (d :: u)
 
 /-- body of a plain STRING with quote `q`: not the quote, no backslash, no LF / CR / FF -/
 def strPlain (q c : Nat) : Bool := c != q && c != 92 && c != 10 && c != 13 && c != 12
@@ -51,9 +67,9 @@ def typeStr : TT → String
   | .suffixmatch => "SUFFIXMATCH" | .substringmatch => "SUBSTRINGMATCH" | .eof => "EOF"
   | _ => "?"
 
-/-- first code point of a plain lexeme: ASCII and not `@` (so the text starts neither with a BOM nor with `@charset `) -/
+/-- first code point of a plain lexeme: not `@`, not U+00EF / U+00FE (so the text starts neither with a BOM nor with `@charset `) -/
 def headOk : Cps → Bool
-  | c :: _ => inRanges [(0, 63), (65, 127)] c
+  | c :: _ => inRanges [(0, 63), (65, 238), (240, 253), (255, 1114111)] c
   | [] => false
 
 /-- an escape-free lexeme of its class -/
@@ -61,7 +77,7 @@ def Tok.plainCls (t : Tok) : Bool :=
   match t.typ with
   | .ident => plainName t.val
   | .hash => (match t.val with
-      | 35 :: n :: ns => (n :: ns).all (inRanges identRestR)
+      | 35 :: n :: ns => nameBody (n :: ns)
       | _ => false)
   | .function => t.val.getLast? == some 40 && plainName t.val.dropLast &&
       (CssVerif.Tok.pyLower t.val.dropLast != CssVerif.Gen.C05.andWord)
@@ -81,6 +97,7 @@ def Tok.plainCls (t : Tok) : Bool :=
       | 47 :: 42 :: r => r.drop (r.length - 2) == [42, 47] && (r.take (r.length - 2)).all (· != 42)
       | _ => false)
   | .number => !t.val.isEmpty && t.val.all (inRanges digitR)
+  | .dimension => !(t.val.takeWhile (inRanges digitR)).isEmpty && plainName (t.val.dropWhile (inRanges digitR))
   | _ => false
 
 def Tok.plain (t : Tok) : Bool := headOk t.val && t.plainCls
@@ -99,6 +116,7 @@ def Tok.follow (t : Tok) (c : Nat) : Bool :=
       | [43] => !inRanges digitR c && c != 46
       | _ => true)
   | .number => inRanges numStopR c
+  | .dimension => inRanges nameStopR c
   | _ => true
 
 /-- **plain spelling of a token list**: every token is a plain lexeme and each may be followed by the first code
